@@ -147,7 +147,7 @@ impl From<LspTokenType> for Option<SemanticToken> {
             TokenType::Colon => None,
             TokenType::Period => None,
             TokenType::Hash => None,
-            TokenType::String => Some(STRING_INDEX),
+            TokenType::String => Some(KEYWORD_INDEX),
             TokenType::Identifier => Some(VARIABLE_INDEX),
             TokenType::HexDigits => None,
             TokenType::OctDigits => None,
@@ -262,11 +262,11 @@ impl From<LspTokenType> for Option<SemanticToken> {
             TokenType::Word => Some(KEYWORD_INDEX),
             TokenType::Dword => Some(KEYWORD_INDEX),
             TokenType::Lword => Some(KEYWORD_INDEX),
-            TokenType::Range => Some(KEYWORD_INDEX),
-            TokenType::SingleByteString => None,
-            TokenType::DoubleByteString => None,
+            TokenType::Range => Some(OPERATOR_INDEX),
+            TokenType::SingleByteString => Some(STRING_INDEX),
+            TokenType::DoubleByteString => Some(STRING_INDEX),
             TokenType::Lreal => Some(KEYWORD_INDEX),
-            TokenType::RightArrow => Some(KEYWORD_INDEX),
+            TokenType::RightArrow => Some(OPERATOR_INDEX),
         };
 
         token_type.map(|token_type| SemanticToken {
